@@ -323,6 +323,42 @@ def com_model(ctx, measured=False, fitted=False):
     return me, g
 
 
+def _same_value(a, b):
+    if a is b:
+        return True
+    if isinstance(a, Sym) and isinstance(b, Sym):
+        return a.t.eq(b.t)
+    if isinstance(a, (tuple, list)) and isinstance(b, (tuple, list)):
+        return len(a) == len(b) and all(_same_value(x, y) for x, y in zip(a, b))
+    if isinstance(a, (SymArr, Obj)) or isinstance(b, (SymArr, Obj)):
+        return False
+    return type(a) is type(b) and a == b
+
+
+def forwarded_arguments(s, callee, names):
+    """Call-site preconditions (only inside a caller that announced what it was given, see fw_setup): the one-call workflow
+    must hand each step the CALLER's arguments - otherwise it does not agree with the step-by-step entry points."""
+    exp = s.ctx.ghost.get("c18_expect") if s.mode == "apply" else None
+    if not exp:
+        return []
+    seen = s.ctx.ghost.setdefault("c18_steps_called", [])
+    seen.append(callee)
+    out = []
+    for n in names:
+        got = s.get("arg_" + n) if n == "mode" else s.get(n)
+        out.append((f"{callee}-receives-the-caller's-{n}", _same_value(got, exp[n])))
+    return out
+
+
+class KeepsModeArg(Contract):
+    """`mode` is also the NS bookkeeping attribute (verify / apply): keep the bound PARAMETER under `arg_mode`."""
+
+    def bind(self, interp, args, kwargs):
+        s = super().bind(interp, args, kwargs)
+        s.arg_mode = s.__dict__.get("mode")
+        return s
+
+
 def model_view(me):
     """The ghost description (tensor, scan axes, detector extents, stored origins) of a model object met at a CALL SITE."""
     f = me.fields
@@ -475,7 +511,7 @@ def co_requires(s):
     r = []
     if s.max_batch_size is not None:
         r.append(("max_batch_size>=1", lift(s.max_batch_size) >= 1))
-    return r
+    return r + forwarded_arguments(s, "calculate_origin", ["max_batch_size"])
 
 
 def co_spec(g, p):
@@ -931,6 +967,7 @@ def fb_ensures(s):
 
 
 C_FITBG = Contract(f"{OM}:CenterOfMassOriginModel.fit_origin_background", setup=fb_setup, ensures=fb_ensures,
+                   requires=lambda s: forwarded_arguments(s, "fit_origin_background", ["probe_positions", "fit_method"]),
                    modifies=fb_modifies, result=lambda ctx, s: s.self,
                    raises={ValueError: fb_value_error, NotImplementedError: fb_not_implemented})
 
@@ -972,7 +1009,8 @@ def so_setup(ctx, weak=False):
 def so_requires(s):
     g = s.get("g")
     if g is None or g.weak:  # call sites / the any-shift view: no claim about the VALUES of the shifted patterns, so no value precondition
-        return [("max_batch_size>=1", lift(s.max_batch_size) >= 1)] if s.max_batch_size is not None else []
+        r = [("max_batch_size>=1", lift(s.max_batch_size) >= 1)] if s.max_batch_size is not None else []
+        return r + forwarded_arguments(s, "shift_origin_to", ["origin_coordinate", "max_batch_size", "mode"])
     r = [("detector-larger-than-one-pixel (H,W>1: the grid normalisation divides by H-1, W-1)", AND(g.H.t >= 2, g.W.t >= 2))]
     if s.max_batch_size is not None:
         r.append(("max_batch_size>=1", lift(s.max_batch_size) >= 1))
@@ -1077,7 +1115,7 @@ C_SHIFT = Contract(
 )
 C_SHIFT.tag = "roll"
 # second view of the same function, used at call sites: ANY real shifts, any detector size - shape, frame, raise condition only
-C_SHIFT_ANY = Contract(
+C_SHIFT_ANY = KeepsModeArg(
     f"{OM}:CenterOfMassOriginModel.shift_origin_to", setup=lambda ctx: so_setup(ctx, weak=True), requires=so_requires, ensures=so_ensures,
     raises={ValueError: _so_no_fit}, loops=_SO_LOOPS, modifies=so_modifies, result=lambda ctx, s: s.self,
 )
@@ -1137,7 +1175,8 @@ def ed_setup(ctx):
 def ed_requires(s):
     # reshape((Rx, Ry, 2)) of the (num_dps, 2) origins: the scan must be the two leading axes of a 4-D dataset
     g = s.get("g") or model_view(s.self)
-    return [("4-D-dataset", len(g.lead) == 2), ("measured-and-fitted-origins-are-set", g.om is not None and g.of is not None)]
+    return [("4-D-dataset", len(g.lead) == 2), ("measured-and-fitted-origins-are-set", g.om is not None and g.of is not None)] + \
+        forwarded_arguments(s, "estimate_detector_rotation", ["rotation_angles_deg"])
 
 
 def ed_ensures(s):
@@ -1176,6 +1215,8 @@ C_EDR = Contract(f"{OM}:CenterOfMassOriginModel.estimate_detector_rotation", set
 
 
 def fw_setup(ctx):
+    # first decision of the setup, defaults first (paths are explored depth-first, so the default-argument paths come first)
+    defaults = ctx.branch(ctx.fresh("optional_arguments_left_at_their_defaults", "bool").t)
     me, g = com_model(ctx)
     flags = {}
     for n in ("fit_origin_bkg", "estimate_detector_orientation", "shift_to_origin"):
@@ -1185,9 +1226,24 @@ def fw_setup(ctx):
     g.flags, g.fm = flags, fm
     cy, cx = ctx.fresh("coord_row", "real"), ctx.fresh("coord_col", "real")
     on = "".join(k[0] for k, v in flags.items() if v) or "-"
-    return NS(self=me, max_batch_size=opt_int(ctx, "max_batch_size"), probe_positions=None, fit_method=fm, rotation_angles_deg=None,
+    pp = ang = None
+    mode = "bilinear"
+    if not defaults:
+        # the caller's own probe positions (any real (num_dps, 2) array - e.g. a rotated, sheared or serpentine scan), angles and mode
+        pp = ctx.fresh_arr("probe_positions", (g.N, 2), "real")
+        A = ctx.fresh("A", "int")
+        ctx.assume(A.t >= 1)
+        ang = ctx.fresh_arr("rotation_angles_deg", (A,), "real")
+        pp.as_type = ang.as_type = torch.Tensor
+        mode = "nearest"
+        g.case += ",explicit-args"
+    mb = opt_int(ctx, "max_batch_size")
+    g.pp, g.ang = pp, ang
+    # announced to the steps' call-site preconditions (forwarded_arguments)
+    ctx.ghost["c18_expect"] = dict(max_batch_size=mb, probe_positions=pp, fit_method=fm, rotation_angles_deg=ang, origin_coordinate=(cy, cx), mode=mode)
+    return NS(self=me, max_batch_size=mb, probe_positions=pp, fit_method=fm, rotation_angles_deg=ang,
               origin_coordinate=(cy, cx), g=g, case=f"{g.case},{fm},steps:{on}",
-              param_values=dict(mode="bilinear", **flags))
+              param_values=dict(mode=mode, **flags))
 
 
 def fw_requires(s):
@@ -1213,6 +1269,17 @@ def fw_ensures(s):
         ("after-the-whole-workflow:origin_measured[p,1]=sum(I*col)/sum(I)", forall(p, implies(inr, lift(om.fn(p, z3.IntVal(1))) == sc))),
         ("frame:tensor-and-dataset-not-written", g.T.writes == 0 and g.A.writes == 0 and f["_tensor"] is g.T and f["_dataset"] is g.ds),
     ]
+    steps = ["calculate_origin"]
+    if fl["fit_origin_bkg"]:
+        steps.append("fit_origin_background")
+        if fl["estimate_detector_orientation"]:
+            steps.append("estimate_detector_rotation")
+        if fl["shift_to_origin"]:
+            steps.append("shift_origin_to")
+    out.append(("runs-exactly-the-requested-steps-in-workflow-order (each with the caller's arguments, see the call-site preconditions)",
+                s.ctx.ghost.get("c18_steps_called", []) == steps))
+    out.append(("frame:the-caller's-probe-positions-and-angles-are-not-written",
+                (g.pp is None or g.pp.writes == 0) and (g.ang is None or g.ang.writes == 0)))
     changed = {"_origin_measured"}
     if fl["fit_origin_bkg"]:
         changed.add("_origin_fitted")
@@ -1330,6 +1397,9 @@ def _dataset(arr):
 
 def _origin_model(arr):
     from quantem.diffractive_imaging.origin_models import CenterOfMassOriginModel
+
+    if torch.get_num_threads() != 1:
+        torch.set_num_threads(1)  # tiny tensors: intra-op threads only cost (and the machine is shared)
 
     return CenterOfMassOriginModel.from_dataset(_dataset(arr), device="cpu")
 
@@ -1581,6 +1651,40 @@ def fam_fit_origin_constant():
             yield dict(shape=list(sh), surface="constant", fit_function="constant", mask=mask, seed=sh[0])
 
 
+POSITION_KINDS = ("raster", "scaled-offset", "rotated-sheared", "serpentine", "irregular")
+
+
+def _positions(kind, Rx, Ry, seed):
+    """Explicit probe positions (num_dps, 2) for an Rx x Ry scan: the plain raster, an affine copy of it, a rotated AND sheared
+    (correlated coordinates) copy, a serpentine / boustrophedon order (not an affine function of the scan indices) and a
+    jittered irregular scan."""
+    rng = np.random.default_rng(seed + 23)
+    r, c = np.indices((Rx, Ry)).astype(np.float64)
+    if kind == "serpentine":
+        c = np.where(r % 2 == 1, Ry - 1 - c, c)
+    P = np.stack([r.ravel(), c.ravel()], -1)
+    if kind == "scaled-offset":
+        P = P * np.array([0.7, 1.3]) + np.array([2.0, -1.0])
+    elif kind == "rotated-sheared":
+        t = 0.45
+        R = np.array([[np.cos(t), -np.sin(t)], [np.sin(t), np.cos(t)]])
+        P = (P * np.array([1.0, 0.8])) @ R.T @ np.array([[1.0, 0.6], [0.0, 1.0]])
+    elif kind == "irregular":
+        P = P + rng.uniform(-0.4, 0.4, size=P.shape) + 0.3 * P[:, ::-1]
+    return P
+
+
+def _plane_over(P, seed, lo=3.0, hi=6.0):
+    """(row, col) origins lying EXACTLY on two planes over the positions P."""
+    rng = np.random.default_rng(seed + 31)
+    out = []
+    for _ in range(2):
+        a, b = rng.uniform(-0.35, 0.35, size=2)
+        z = a * P[:, 0] + b * P[:, 1]
+        out.append(z - z.min() + rng.uniform(lo, hi) * 0 + lo + rng.uniform(0, 0.5))
+    return np.stack(out, -1)
+
+
 @_guard
 def rt_fit_background(inp):
     shape = tuple(inp["shape"])
@@ -1590,7 +1694,13 @@ def rt_fit_background(inp):
     meas = torch.tensor(np.stack([pr.ravel(), pc.ravel()], -1), dtype=torch.float32)
     m.origin_measured = meas
     pos = None
-    if inp.get("positions"):
+    if isinstance(inp.get("positions"), str):  # explicit positions of the given kind; the measured origins are planes over THEM
+        P = _positions(inp["positions"], shape[0], shape[1], inp["seed"])
+        pos = torch.tensor(P, dtype=torch.float32)
+        if inp["surface"] == "plane":
+            meas = torch.tensor(_plane_over(P, inp["seed"]), dtype=torch.float32)
+            m.origin_measured = meas
+    elif inp.get("positions"):
         r, c = np.indices(shape[:2])
         pos = torch.tensor(np.stack([r.ravel(), c.ravel()], -1), dtype=torch.float32)
     if inp.get("expect"):
@@ -1618,7 +1728,9 @@ def rt_fit_background(inp):
         problems.append(f"fit deviates from {what} by {np.abs(got - exp).max():.3g}")
     if not torch.equal(m.origin_measured, meas):
         problems.append("measured origins modified")
-    return _res(problems, "fitting a plane / constant to origins lying exactly on such a surface returns that surface")
+    r = _res(problems, "fitting a plane / constant to origins lying exactly on such a surface (over the GIVEN probe positions) returns that surface")
+    r["klass"] = ("none" if not problems else f"{inp['fit_method']}-fit-over-{inp['positions'] if isinstance(inp.get('positions'), str) else 'raster'}-positions")
+    return r
 
 
 def fam_fit_background(tier="quick", seed=0):
@@ -1626,8 +1738,79 @@ def fam_fit_background(tier="quick", seed=0):
         for positions in (False, True):
             for surf, fm in (("constant", "constant"), ("plane", "plane"), ("constant", "plane"), ("plane", "constant")):
                 yield dict(shape=list(sh), surface=surf, fit_method=fm, positions=positions, seed=seed + sh[0] + (7 if surf == "constant" else 0))
+    for sh in [(5, 7, 2, 2), (4, 3, 2, 3)] + ([(6, 9, 2, 2)] if tier == "thorough" else []):
+        for kind in POSITION_KINDS:
+            for surf, fm in (("plane", "plane"), ("constant", "plane"), ("plane", "constant")):
+                yield dict(shape=list(sh), surface=surf, fit_method=fm, positions=kind, seed=seed + sh[1])
     yield dict(shape=[3, 4, 2, 2], surface="constant", fit_method="constant", positions=True, expect="ValueError:positions", seed=seed)
     yield dict(shape=[3, 4, 2, 2], surface="constant", fit_method="parabola", positions=False, expect="NotImplementedError", seed=seed)
+
+
+def _planar_com_data(shape, origins):
+    """Patterns whose intensity-weighted mean coordinate is EXACTLY origins[p]: the four pixels around it with bilinear weights."""
+    Rx, Ry, H, W = shape
+    arr = np.zeros((Rx * Ry, H, W), dtype=np.float64)
+    for p, (r, c) in enumerate(origins):
+        i0, j0 = int(np.floor(r)), int(np.floor(c))
+        fr, fc = r - i0, c - j0
+        for di, wi in ((0, 1 - fr), (1, fr)):
+            for dj, wj in ((0, 1 - fc), (1, fc)):
+                arr[p, i0 + di, j0 + dj] += 100.0 * wi * wj
+    return arr.reshape(shape)
+
+
+@_guard
+def rt_forward_positions(inp):
+    """Sibling entry points: forward(...) == calculate_origin(); fit_origin_background(); [estimate]; shift_origin_to() with the SAME
+    arguments - in particular with the caller's explicit probe positions, over which the measured origins are exact planes."""
+    shape = tuple(inp["shape"])
+    Rx, Ry, H, W = shape
+    P = _positions(inp["positions"], Rx, Ry, inp["seed"])
+    origins = _plane_over(P, inp["seed"], lo=1.2)
+    if origins.max() > min(H, W) - 2.2:
+        origins = 1.2 + (origins - origins.min()) * (min(H, W) - 3.6) / max(origins.max() - origins.min(), 1e-9)
+    arr = _planar_com_data(shape, origins).astype(np.float32)
+    pos = None if inp["positions"] == "inferred" else torch.tensor(P, dtype=torch.float32)
+    kw = dict(max_batch_size=inp.get("max_batch_size"), fit_method=inp["fit_method"], estimate_detector_orientation=inp.get("estimate", True))
+    one = _origin_model(arr)
+    one.forward(probe_positions=pos, origin_coordinate=tuple(inp.get("coordinate", (0, 0))), mode=inp.get("mode", "bilinear"), **kw)
+    two = _origin_model(arr)
+    two.calculate_origin(max_batch_size=kw["max_batch_size"])
+    two.fit_origin_background(probe_positions=pos, fit_method=inp["fit_method"])
+    if kw["estimate_detector_orientation"]:
+        two.estimate_detector_rotation()
+    two.shift_origin_to(origin_coordinate=tuple(inp.get("coordinate", (0, 0))), max_batch_size=kw["max_batch_size"], mode=inp.get("mode", "bilinear"))
+    problems, flags = [], []
+    f1, f2 = one.origin_fitted.numpy().astype(np.float64), two.origin_fitted.numpy().astype(np.float64)
+    if not np.abs(f1 - f2).max() <= 1e-4:
+        problems.append(f"forward(): origin_fitted differs from the step-by-step call with the same arguments by {np.abs(f1 - f2).max():.3g}")
+        flags.append("forward-disagrees-with-the-steps")
+    if inp["fit_method"] == "plane" and inp["positions"] != "inferred":
+        for nm, f in (("forward", f1), ("fit_origin_background", f2)):
+            d = np.abs(f - origins).max()
+            if not d <= 5e-3:
+                problems.append(f"{nm}: fitted plane deviates by {d:.3g} from the plane (over the given positions) the measured origins lie on")
+                flags.append(f"{nm}-plane-not-recovered-over-{inp['positions']}-positions")
+    s1, s2 = one.shifted_tensor.numpy(), two.shifted_tensor.numpy()
+    if not np.abs(s1 - s2).max() <= 1e-3 * max(1.0, np.abs(s2).max()):
+        problems.append("forward(): shifted_tensor differs from the step-by-step result")
+        flags.append("forward-disagrees-with-the-steps")
+    m1 = one.origin_measured.numpy().astype(np.float64)
+    if not np.abs(m1 - origins).max() <= 2e-3:
+        problems.append("forward(): origin_measured is not the intensity-weighted mean coordinate")
+        flags.append("wrong-com")
+    r = _res(problems, "forward(args) == the four steps called one by one with the same args; a plane over the given positions is recovered")
+    r["klass"] = "+".join(sorted(set(flags))) or "none"
+    return r
+
+
+def fam_forward_positions(tier="quick", seed=0):
+    for sh in [(5, 7, 9, 10), (4, 3, 8, 9)] + ([(6, 5, 10, 9)] if tier == "thorough" else []):
+        for kind in ("inferred",) + POSITION_KINDS:
+            for fm in ("plane", "constant"):
+                yield dict(shape=list(sh), positions=kind, fit_method=fm, max_batch_size=None if kind != "irregular" else 4,
+                           estimate=kind not in ("serpentine",), mode="bilinear", coordinate=[0, 0], seed=seed + sh[0])
+        yield dict(shape=list(sh), positions="serpentine", fit_method="plane", max_batch_size=3, estimate=True, mode="nearest", coordinate=[1, 2], seed=seed + 1)
 
 
 @_guard
@@ -1920,7 +2103,8 @@ for _c, _rt, _fam in (
     (C_SB_INIT, rt_batcher, fam_batcher), (C_SB_ITER, rt_batcher, fam_batcher),
     (C_SET_MEASURED, rt_setter, fam_setter), (C_SET_FITTED, rt_setter, fam_setter),
     (C_CALC, rt_calc, fam_calc), (C_FITBG, rt_fit_background, fam_fit_background), (C_SHIFT, rt_shift, fam_shift), (C_SHIFT_ANY, rt_shift, fam_shift),
-    (C_FORWARD, rt_workflow, fam_workflow_estimate),
+    (C_FORWARD, lambda inp: rt_forward_positions(inp) if "positions" in inp else rt_workflow(inp),
+     lambda tier="quick", seed=0: (yield from (*fam_forward_positions(tier, seed), *fam_workflow_estimate(tier, seed)))),
     (C_EDR, rt_workflow, fam_workflow_estimate), (C_EDR_HELPER, rt_workflow, fam_workflow_estimate),
     (C_GETCOM, rt_getcom, fam_getcom), (C_FITORIGIN, rt_fit_origin, fam_fit_origin_constant),
     (C_SIC_VEC, rt_sic, fam_sic(True)), (C_SIC_LOOP, rt_sic, fam_sic(False)),
@@ -1939,7 +2123,10 @@ BOUNDED = [
     Bounded.from_rt("PLANE FITS (stand-in for proof): fit_origin on exact constant / plane / parabola surfaces", rt_fit_origin, fam_fit_origin,
                     "2 shapes x {all-True mask, mask=None, partial mask} x 5 surface/function pairs (curve_fit is outside the deductive reach)", klass=_fit_class),
     Bounded.from_rt("PLANE FITS (stand-in for proof): fit_origin_background PCA plane / constant on exact surfaces", rt_fit_background, fam_fit_background,
-                    "3 scan shapes x {inferred, explicit positions} x {constant, plane} (torch.linalg.eigh is outside the deductive reach)"),
+                    "3 scan shapes x {inferred, explicit raster} + 2 scan shapes x {raster, scaled-offset, rotated-sheared, serpentine, irregular} explicit "
+                    "positions x {plane/plane, constant/plane, plane/constant} (torch.linalg.eigh is outside the deductive reach)", klass=_klass_res),
+    Bounded.from_rt("forward == step-by-step entry points, explicit probe positions (planes over the given positions)", rt_forward_positions, fam_forward_positions,
+                    "2 scan shapes x {inferred, raster, scaled-offset, rotated-sheared, serpentine, irregular} x {plane, constant}, exact-CoM patterns", klass=_klass_res),
     Bounded.from_rt("workflow histories on one model object (calculate / fit / estimate / shift / forward, repeated)", rt_workflow, fam_workflow,
                     "2 scan shapes x 2 batch sizes x 10 step sequences (incl. new data on the same object): measured origins survive every later step, later fits are fits of them", klass=_klass_res),
     Bounded.from_rt("shift_origin_to with integer origins vs numpy.roll", rt_shift, fam_shift, "4 shapes x batch sizes None,1,2,n x bilinear/nearest, origins in [-H,2H)x[-W,2W), one shared origin with non-zero target"),
@@ -1972,6 +2159,12 @@ ASSUMPTIONS = [
     "(free symbols constrained only to be in range), which is the universally quantified statement",
     "shift_origin_to is specified for H, W >= 2 and for patterns whose (fitted origin - target coordinate) is integer-valued; other shifts are bilinear "
     "interpolation and outside the claim",
+    "PLANE FIT OF THE ORIGIN MODEL (fit_origin_background(fit_method='plane'), inner fit_linear_plane): the clause 'origins lying exactly on a plane "
+    "over the GIVEN (non-collinear) probe positions are returned exactly' is NOT proved - it rests on torch.cov + torch.linalg.eigh (normal = eigenvector "
+    "of the smallest eigenvalue) and on linearity of finite sums, neither of which the deductive part has (sums carry congruence only).  It is covered by "
+    "bounded stand-ins only: explicit raster / scaled-offset / rotated-sheared (correlated coordinates) / serpentine / irregular positions, both through "
+    "fit_origin_background and through forward.  What IS proved about positions: forward hands the caller's probe_positions (and every other argument) "
+    "to the step that consumes it (call-site preconditions)",
     "plane / parabola fits (scipy curve_fit, torch.linalg.eigh PCA) are NOT proved: bounded stand-ins on exact surfaces only; at call sites "
     "(forward) a plane fit is an unspecified (num_dps, 2) array",
     "forward is verified with its four steps used THROUGH their contracts (calculate_origin, fit_origin_background, estimate_detector_rotation and the "
